@@ -51,7 +51,7 @@ def main():
                 if only and prop not in only:
                     continue
                 sh("git", "-C", WT, "reset", "--hard", "HEAD")
-                rv = sh("git", "-C", WT, "revert", "-n", commit)
+                rv = sh("git", "-C", WT, "revert", "-n", *(kf.get("revert_with", {}).get(commit, []) + [commit]))
                 how = "git revert -n"
                 if rv.returncode != 0:
                     # later fixes touched the same lines: take the touched files back to their state before this
@@ -65,7 +65,15 @@ def main():
                         results.append(dict(kind="revert-fix", property=prop, commit=commit, what=what[:160], outcome="revert-conflict"))
                         print("CONFLICT %s %s" % (prop, commit))
                         continue
-                b = sh("go", "build", "./...", cwd=WT, env=dict(os.environ, GOFLAGS="-mod=mod", GOPROXY="off", GOSUMDB="off"))
+                genv = dict(os.environ, GOFLAGS="-mod=mod", GOPROXY="off", GOSUMDB="off")
+                b = sh("go", "build", "./...", cwd=WT, env=genv)
+                if b.returncode != 0 and how == "git revert -n":
+                    # e.g. a later commit tidied the imports the fix had added: restore the files instead
+                    sh("git", "-C", WT, "reset", "--hard", "HEAD")
+                    files = [f for f in sh("git", "-C", WT, "show", "--name-only", "--format=", commit).stdout.split() if f]
+                    sh("git", "-C", WT, "checkout", commit + "^", "--", *files)
+                    how = "files of the commit restored to their state before it"
+                    b = sh("go", "build", "./...", cwd=WT, env=genv)
                 if b.returncode != 0:
                     results.append(dict(kind="revert-fix", property=prop, commit=commit, what=what[:160], outcome="does-not-build"))
                     print("NOBUILD %s %s" % (prop, commit))
